@@ -46,10 +46,45 @@ class CursorSpec(Spec):
         return ev == 'scan'
 
 
+class ResizeOrderSpec(Spec):
+    """the prior content of a file is scanned for reusable chunks only while the file still has its prior length:
+    set_len(source size) shortens a longer prior output, and what is cut off cannot be found by a later scan"""
+    adt = FILE
+    states = ('Intact', 'Resized')
+    init_state = 'Intact'
+
+    def event(self, b, t, q, argi):
+        if q == 'tokio::fs::file::File::set_len' and argi == 0:
+            return 'resize'
+        if q == SCAN and argi == 1:
+            return 'scan'
+        return None
+
+    def delta(self, s, ev):
+        return 'Resized' if ev == 'resize' else s
+
+    def checkpoint(self, ev):
+        return ev == 'scan'
+
+
 def run(facts):
     ts = TypeState(facts, CursorSpec())
+    ts2 = TypeState(facts, ResizeOrderSpec())
     instances, findings = [], []
     from .r_flush import _user_name
+    for b in facts.bodies.values():
+        for root in ts2.roots(b):
+            r, ex = ts2.analyse_owner(b, root)
+            scans = [(st, loc, oc) for (ev, st, loc, oc) in r.records if ev == 'scan']
+            if not scans:
+                continue
+            name = _user_name(b, root)
+            instances.append({'rule': 'R-RESIZE(order)', 'function': b.q, 'resource': name, 'scans': sorted({(st, loc) for st, loc, _ in scans})})
+            for st, loc, oc in scans:
+                if st == 'Resized':
+                    findings.append({'rule': 'R-RESIZE', 'key': 'R-RESIZE|%s|resized-before-scan:%s' % (b.q, name), 'function': b.q,
+                                     'what': '`%s` is resized before it is scanned for reusable chunks at %s: whatever a longer prior output '
+                                             'holds beyond the new length is cut off unseen and fetched again' % (name, loc)})
     for b in facts.bodies.values():
         for root in ts.roots(b):
             r, ex = ts.analyse_owner(b, root)
